@@ -137,8 +137,26 @@ def query_shape(m, f):
     return [c.q.split("::")[-1] for c in conds], out
 
 
+def _expr_value_op(f, e):
+    """the operand carrying the value of an expression tuple (op, key, value root): re-find the call"""
+    for c in f.calls():
+        if re.search(r"^acts::store::query::Expr::%s$" % e[0], c.q):
+            k = Prov(None, "value").root(f, c.args[0]) if False else None
+    for c in f.calls():
+        if re.search(r"^acts::store::query::Expr::%s$" % e[0], c.q):
+            pvx = Prov(_M[0], "value")
+            k = pvx.root(f, c.args[0])
+            if k[0] == "const" and k[1].get("str") == e[1]:
+                return c.args[1]
+    return None
+
+
+_M = [None]
+
+
 def r3(cx):
     m = cx.m
+    _M[0] = m
     f = m.one("^" + re.escape(STORE) + r"with_no_response_messages$")
     conds, exprs = query_shape(m, f)
     status = [e for e in exprs if e[1] == "status"]
@@ -310,11 +328,25 @@ def r5(cx):
         # and it is reached on the Ok path of every arm: dominated by nothing else
         others = [gdesc(m, x) for x in guards_of(m, g, cs[0].b, mode="value") if not x.neutral]
     cx.ob("C09.R5", "action:completes-message", okp, "after every accepted action except push the messages of that task are marked Completed", cs[0].loc if cs else g.loc())
+    # an action closes ALL messages of that task: the selection is pid == <pid> AND tid == <tid>, nothing else
+    sw = m.one("^" + re.escape(STORE) + r"set_message_with$")
+    conds, exprs = query_shape(m, sw)
+    from rules.c17 import _is_param
+    pvv = Prov(m, "value")
+    shape = sorted((e[0], e[1]) for e in exprs)
+    okq = conds == ["and"] and shape == [("eq", "pid"), ("eq", "tid")] and all(_is_param(pvv, sw, pvv.root(sw, _expr_value_op(sw, e)), e[1]) for e in exprs)
+    cx.ob("C09.R5", "action:selects-all-of-task", okq,
+          "set_message_with selects exactly the messages with pid == <pid> and tid == <tid> (found %s): a further filter would leave some message of an acted-on task open" % [(e[0], e[1]) for e in exprs], sw.loc())
+    # ... and every selected row is updated with the given status
+    upd = [c for c in sw.calls() if c.kind == "virtual" and c.q.endswith("DbCollection::update")]
+    gsu = [g for g in guards_of(m, sw, upd[0].b, mode="alias") if not g.neutral] if upd else []
+    only_loop = all((g.root[0] == "discr" and g.root[1][0] == "call") for g in gsu)
+    cx.ob("C09.R5", "action:updates-each", len(upd) == 1 and only_loop, "every selected message is updated unconditionally", upd[0].loc if upd else sw.loc())
     # ack
     a = m.one(r"^acts::scheduler::runtime::Runtime::ack$")
     cx.ob("C09.R5", "ack:id", any(c.q == STORE + "set_message" and pa.root(a, c.args[1]) == ("param", 2, a.names.get(2), ()) for c in a.calls()),
           "ack marks the message with the given id", a.loc())
-    cx.floor("C09.R5", 11)
+    cx.floor("C09.R5", 13)
 
 
 def r6(cx):
